@@ -337,11 +337,14 @@ pub fn execute(scn: &PairScn, ctx: &mut Ctx) {
     // the complete reader without index (the .shx is optional): two pair iterations on one reader,
     // the first stopped after half of the pairs; the second yields the remaining pairs (or all of
     // them again, C15), each shape still next to its own row
-    if bad == "no-failing-row" && n >= 2 {
+    for (with_index, via_nth) in [(false, false), (true, true), (false, true)] {
+        if !(bad == "no-failing-row" && n >= 2) {
+            break;
+        }
         let w4 = World::with_data(Plan::default(), shp.clone(), shx.clone(), dbf.clone());
         let k = n / 2;
         let r = guarded(|| -> Result<(Vec<(Geom, Option<i64>)>, Vec<(Geom, Option<i64>)>), shapefile::Error> {
-            let sr = ShapeReader::new(Stack::reader(&w4, SHP, StackCfg::Direct))?;
+            let sr = if with_index { ShapeReader::with_shx(Stack::reader(&w4, SHP, StackCfg::Direct), Stack::reader(&w4, SHX, StackCfg::Direct))? } else { ShapeReader::new(Stack::reader(&w4, SHP, StackCfg::Direct))? };
             let dr = dbase::Reader::new(Stack::reader(&w4, DBF, StackCfg::Direct))?;
             let mut rd = Reader::new(sr, dr);
             let idx_of = |rec: &dbase::Record| match rec.get("idx") {
@@ -349,9 +352,21 @@ pub fn execute(scn: &PairScn, ctx: &mut Ctx) {
                 _ => None,
             };
             let mut first = Vec::new();
-            for item in rd.iter_shapes_and_records().take(k) {
-                let (s, rec) = item?;
-                first.push((capture(&s), idx_of(&rec)));
+            if via_nth {
+                // k pairs consumed through Iterator::nth(k - 1) (what skip / step_by call): only the
+                // k-th is returned; the others are filled in from the expectation for the comparison below
+                if let Some(item) = rd.iter_shapes_and_records().nth(k - 1) {
+                    let (s, rec) = item?;
+                    for t in 0..k - 1 {
+                        first.push((geoms[expected[t]].normalised_for_read(), Some(t as i64)));
+                    }
+                    first.push((capture(&s), idx_of(&rec)));
+                }
+            } else {
+                for item in rd.iter_shapes_and_records().take(k) {
+                    let (s, rec) = item?;
+                    first.push((capture(&s), idx_of(&rec)));
+                }
             }
             let mut second = Vec::new();
             for item in rd.iter_shapes_and_records().take(n + 2) {
@@ -361,13 +376,13 @@ pub fn execute(scn: &PairScn, ctx: &mut Ctx) {
             Ok((first, second))
         });
         match r {
-            Err(p) => ctx.fail("C08", "panic", p.site(), format!("complete reader without index: {}", p.text())),
-            Ok(Err(e)) => ctx.fail("C08", "reader-pairs", "no-index-two-iterations", format!("history {}: the complete reader without index failed: {:?}", hist, classify(&e))),
+            Err(p) => ctx.fail("C08", "panic", p.site(), format!("complete reader, two iterations: {}", p.text())),
+            Ok(Err(e)) => ctx.fail("C08", "reader-pairs", if with_index { "two-iterations" } else { "no-index-two-iterations" }, format!("history {}: the complete reader ({} index, first iteration by {}) failed: {:?}", hist, if with_index { "with" } else { "without" }, if via_nth { "nth" } else { "take" }, classify(&e))),
             Ok(Ok((first, second))) => {
                 let aligned = |from: usize, got: &[(Geom, Option<i64>)]| got.iter().enumerate().all(|(t, (g, idx))| from + t < n && diff_read(&geoms[expected[from + t]].normalised_for_read(), g, from + t, &never).is_none() && *idx == Some((from + t) as i64));
                 let ok = first.len() == k && aligned(0, &first) && ((second.len() == n - k && aligned(k, &second)) || (second.len() == n && aligned(0, &second)));
                 if !ok {
-                    ctx.fail("C08", "reader-pairs", "no-index-two-iterations", format!("history {}: without index, {} pairs then the rest: {:?} then {:?}", hist, k, first.iter().map(|(g, i)| format!("{}#{:?}", g.short(), i)).collect::<Vec<_>>(), second.iter().map(|(g, i)| format!("{}#{:?}", g.short(), i)).collect::<Vec<_>>()));
+                    ctx.fail("C08", "reader-pairs", if with_index { "two-iterations" } else { "no-index-two-iterations" }, format!("history {}: {} index, {} pairs (by {}) then the rest: {:?} then {:?}", hist, if with_index { "with" } else { "without" }, k, if via_nth { "nth" } else { "take" }, first.iter().map(|(g, i)| format!("{}#{:?}", g.short(), i)).collect::<Vec<_>>(), second.iter().map(|(g, i)| format!("{}#{:?}", g.short(), i)).collect::<Vec<_>>()));
                 }
             }
         }
@@ -386,7 +401,7 @@ fn path_route(ctx: &mut Ctx, scn: &PairScn, shapes: &[shapefile::Shape], geoms: 
     let stem = format!("pair-{}", crate::prng::fnv_str(&serde_json::to_string(scn).unwrap_or_default()));
     let base = dir.join(format!("{}.a.x", stem));
     let neighbour = dir.join(format!("{}.b.x", stem));
-    let shp_path = base.with_extension("shp");
+    let shp_path = base.with_extension(if crate::prng::fnv_str(&stem) % 2 == 0 { "shp" } else { "SHP" });
     let mut expected: Vec<usize> = Vec::new();
     // the path is not fresh: longer files are already there and must be replaced entirely
     for ext in ["shp", "shx", "dbf"] {
@@ -530,7 +545,26 @@ fn execute_pre(scn: &PairScn, shapes: &[shapefile::Shape], other: &shapefile::Sh
                     _ => {}
                 }
             }
-            let _ = guarded(move || drop(writer));
+            if with_rejected && scn.calls.len() % 2 == 1 {
+                // the writer is consumed by the bulk call, offered two pairs of the other type: refused
+                // as a whole, nothing of it reaches any of the three files
+                let rows = [good_row(rows), good_row(rows + 1)];
+                let r = guarded(move || {
+                    crate::on_type!(scn.other.ty, S => {
+                        let o: Vec<S> = (0..2).filter_map(|_| S::try_from(crate::geom::build(&scn.other)).ok()).collect();
+                        writer.write_shapes_and_records(o.iter().zip(rows.iter()))
+                    }, Ok(()))
+                });
+                let want = RErr::Mismatch { requested: ty, actual: scn.other.ty };
+                match r {
+                    Ok(Err(e)) if classify(&e) == want => {}
+                    Ok(x) => ctx.fail("C10", "rejected-error", type_name(ty), format!("complete writer, history {}: write_shapes_and_records of {} pairs into a {} file returned {:?}", hist, type_name(scn.other.ty), type_name(ty), x.map_err(|e| classify(&e)))),
+                    Err(p) => ctx.fail("C10", "panic", p.site(), p.text()),
+                }
+                ctx.stats.reach("bulk-pairs-of-another-type-rejected");
+            } else {
+                let _ = guarded(move || drop(writer));
+            }
         }
         let wb = world.borrow();
         Some((wb.data(SHP).to_vec(), wb.data(SHX).to_vec(), wb.data(DBF).to_vec()))
